@@ -27,7 +27,7 @@ PROPS = None
 def one(d, props=None):
     global PROPS
     PROPS = props
-    d = pathlib.Path(d)
+    d = pathlib.Path(d).resolve()
     tmp = pathlib.Path(tempfile.mkdtemp(prefix='cirbo_benign_'))
     try:
         shutil.copytree('/repo/cirbo', tmp / 'cirbo')
